@@ -305,6 +305,8 @@ func runC37(s *kit.Session, f kit.Failer, c c37Case, ntTimeout bool) {
 	}
 	pool := daisen2.VerifDB(srv)
 	defer pool.Close()
+	// harness-side speed-up only: no fsync for the probe writes / final checkpoint
+	_, _ = pool.Exec("PRAGMA synchronous=OFF")
 	// independent observer connection, kept open for the whole case so that no
 	// connection open/close (and hence no checkpoint) happens between snapshots
 	side, err := sql.Open("sqlite3", dbPath)
@@ -313,6 +315,7 @@ func runC37(s *kit.Session, f kit.Failer, c c37Case, ntTimeout bool) {
 	}
 	side.SetMaxOpenConns(1)
 	defer side.Close()
+	_, _ = side.Exec("PRAGMA synchronous=OFF")
 	if _, err := c37Dump(side); err != nil {
 		panic("observer connection: " + err.Error())
 	}
@@ -489,10 +492,12 @@ type sqlGen struct {
 	// text that can end up in a result-column name is drawn from a per-query
 	// budget, so that the header line stays below the byte cap by construction
 	// (<= 30 000 bytes of names from the text + <= 2000 schema columns).
-	steer     bool
-	inResult  int
-	budget    int
-	steered   bool
+	steer    bool
+	inResult int
+	budget   int
+	steered  bool
+	noAgg    int
+	rowsBig  int
 }
 
 // nameLen clamps a drawn length of text that may become (part of) a column name.
@@ -524,10 +529,24 @@ var tableCols = map[string][]string{
 }
 
 func (g *sqlGen) table() string {
-	return g.pick("table", "trace", "trace", "trace", "location", "milestone", "sqlite_master", "pragma_table_info('trace')", "pragma_database_list", "v_trace", "\"daisen$segments\"")
+	opts := []string{"trace", "trace", "trace", "location", "sqlite_master", "pragma_table_info('trace')", "pragma_database_list"}
+	if g.template%c37Templates == 2 {
+		opts = append(opts, "v_trace", "\"daisen$segments\"", "nosuchtable")
+	} else {
+		opts = append(opts, "milestone", "milestone")
+	}
+	return rapid.SampledFrom(opts).Draw(g.rt, "table")
 }
 
+func (g *sqlGen) hasMilestone() bool { return g.template%c37Templates != 2 }
+
+// sizeN draws a size for zeroblob/printf/literals/aliases. Behind a cross join
+// (tens of thousands of rows) only small per-row values are generated, so that
+// DISTINCT/ORDER BY/group_concat over them stay in the tens of megabytes.
 func (g *sqlGen) sizeN() int {
+	if g.rowsBig > 0 {
+		return rapid.SampledFrom([]int{0, 1, 7, 100}).Draw(g.rt, "size")
+	}
 	return rapid.SampledFrom([]int{0, 1, 7, 100, 4095, 4096, 4097, 20000, 65535, 65536, 65537, 70000, 300000, 2000000}).Draw(g.rt, "size")
 }
 
@@ -589,7 +608,19 @@ func (g *sqlGen) lit() string {
 func (g *sqlGen) col(tbl string) string {
 	cols, ok := tableCols[tbl]
 	if !ok {
-		return g.pick("anycol", "name", "type", "ID", "Kind", "1", "rowid")
+		switch tbl {
+		case "sqlite_master":
+			return g.pick("mcol", "name", "type", "sql", "rowid")
+		case "pragma_table_info('trace')":
+			return g.pick("pcol", "name", "type", "cid", "pk")
+		case "pragma_database_list":
+			return g.pick("dcol", "name", "file", "seq")
+		case "v_trace":
+			return g.pick("vcol", "ID", "Kind")
+		case "daisen$segments":
+			return g.pick("scol", "StartTime", "EndTime")
+		}
+		return g.pick("anycol", "1", "2", "'k'", "NULL", "nosuchcol")
 	}
 	return rapid.SampledFrom(cols).Draw(g.rt, "col")
 }
@@ -609,8 +640,16 @@ func (g *sqlGen) expr(tbl string, depth int) string {
 	case 3:
 		return fmt.Sprintf("%s(%s)", g.pick("fn1", "length", "upper", "lower", "typeof", "abs", "hex", "quote", "trim", "unicode", "round"), g.expr(tbl, depth-1))
 	case 4:
+		if g.noAgg > 0 && !g.chance("agg-anyway", 10) {
+			return g.col(tbl)
+		}
+		g.noAgg++
+		defer func() { g.noAgg-- }()
 		return fmt.Sprintf("%s(%s)", g.pick("agg", "count", "sum", "min", "max", "avg", "total", "group_concat"), g.expr(tbl, depth-1))
 	case 5:
+		if g.noAgg > 0 && !g.chance("agg-anyway", 10) {
+			return g.lit()
+		}
 		return "count(*)"
 	case 6:
 		return fmt.Sprintf("(%s %s %s)", g.expr(tbl, depth-1), g.pick("op", "+", "-", "*", "/", "%", "||", "=", "<>", "<", ">=", "AND", "OR", "LIKE", "IS", "IS NOT", "&", "|", "<<"), g.expr(tbl, depth-1))
@@ -676,12 +715,17 @@ func (g *sqlGen) from() (string, string) {
 		t := g.table()
 		return t, strings.Trim(t, `"`)
 	case 3:
-		return "trace t JOIN location l ON t.Location = l.ID", "trace"
+		return "trace t JOIN location l ON t.Location = l.ID", "?"
 	case 4: // cross join: large results (template 1: 40 rows each -> up to 64 000 rows)
+		g.rowsBig++
 		k := g.n("cross", 2, 3)
 		parts := []string{}
 		for i := 0; i < k; i++ {
-			parts = append(parts, fmt.Sprintf("%s t%d", g.pick("ct", "trace", "trace", "location", "milestone"), i))
+			ct := g.pick("ct", "trace", "trace", "location", "milestone")
+			if ct == "milestone" && !g.hasMilestone() {
+				ct = "trace"
+			}
+			parts = append(parts, fmt.Sprintf("%s t%d", ct, i))
 		}
 		return strings.Join(parts, ", "), "?"
 	case 5:
@@ -690,9 +734,12 @@ func (g *sqlGen) from() (string, string) {
 	case 6:
 		return "(VALUES (1,'a'),(2,'b'),(3,NULL)) v", "?"
 	case 7:
-		return "trace t LEFT JOIN milestone m ON m.TaskID = t.ID", "trace"
+		if !g.hasMilestone() {
+			return "trace t LEFT JOIN location m ON m.ID = t.Location", "?"
+		}
+		return "trace t LEFT JOIN milestone m ON m.TaskID = t.ID", "?"
 	default:
-		return "trace NATURAL JOIN location", "trace"
+		return "trace NATURAL JOIN location", "?"
 	}
 }
 
@@ -723,7 +770,9 @@ func (g *sqlGen) selectCore(depth int) (string, bool) {
 	sb.WriteString(" FROM ")
 	sb.WriteString(from)
 	if g.chance("where", 3) {
+		g.noAgg++
 		sb.WriteString(" WHERE " + g.expr(tbl, 2))
+		g.noAgg--
 	}
 	if g.chance("group", 5) {
 		sb.WriteString(" GROUP BY " + g.col(tbl))
@@ -732,8 +781,11 @@ func (g *sqlGen) selectCore(depth int) (string, bool) {
 		}
 	}
 	if depth > 0 && g.chance("compound", 8) {
+		// a compound with matching arity
+		sb.Reset()
+		sb.WriteString("SELECT ID, Kind FROM trace")
 		sb.WriteString(g.pick("cop", " UNION ", " UNION ALL ", " EXCEPT ", " INTERSECT "))
-		sb.WriteString("SELECT " + g.resultCols(tbl) + " FROM " + g.table())
+		sb.WriteString(g.pick("cright", "SELECT ID, Locale FROM location", "SELECT ParentID, What FROM trace", "SELECT 1, "+g.lit(), "VALUES (1, 'read')"))
 	}
 	if g.chance("order", 4) {
 		sb.WriteString(" ORDER BY " + g.pick("ob", "1", "1 DESC", "2", "random()", "ID"))
@@ -755,12 +807,12 @@ func (g *sqlGen) recursiveCTE() string {
 
 func (g *sqlGen) ctePrefix() string {
 	return g.pick("cte",
-		"WITH x AS (SELECT 1 LIMIT 1) ",
+		"WITH x(a) AS (SELECT 1 LIMIT 1) ",
 		"WITH x(a) AS (VALUES(1)) /* limit 1 */ ",
-		"with x as (select * from trace limit 2), y as (select 1) ",
+		"with x(a) as (select ID from trace limit 2), y as (select 1) ",
 		"WITH RECURSIVE x(a) AS (SELECT 1 UNION ALL SELECT a+1 FROM x LIMIT 3) ",
-		"WITH x AS (SELECT 1) ", // no LIMIT anywhere: the injected LIMIT breaks a write (syntax error)
-		"WITH x AS MATERIALIZED (SELECT ID FROM trace LIMIT 9) ",
+		"WITH x(a) AS (SELECT 1) ", // no LIMIT anywhere: the injected LIMIT breaks a write (syntax error)
+		"WITH x(a) AS MATERIALIZED (SELECT ID FROM trace LIMIT 9) ",
 	)
 }
 
@@ -984,7 +1036,7 @@ func TestC37SQL(t *testing.T) {
 	} else if kit.ReplayMode() {
 		t.Skip()
 	}
-	kit.SetChecks(2_500, 20_000)
+	kit.SetChecks(1_500, 12_000)
 	rapid.Check(t, func(rt *rapid.T) {
 		c := genC37(rt, s)
 		runC37(s, rt, c, false)
@@ -995,20 +1047,30 @@ func TestC37SQL(t *testing.T) {
 // Deadline sub-check: long-running statements cut by the caller's context.
 // ---------------------------------------------------------------------------
 
-// Heavy statements are long (0.3-2 s when left alone) but finite: the driver
-// interrupts a statement only once, when the context fires, and that interrupt
-// is lost when it arrives before sqlite3_step has started (sub-millisecond
-// deadlines) - an endless statement would then hang the harness.
+// Heavy statements are long but finite: the driver interrupts a statement only
+// once, when the context fires, and that interrupt is lost when it arrives
+// before sqlite3_step has started (sub-millisecond deadlines) - an endless
+// statement would then hang the harness. {N} is the recursion bound, {X} the
+// cross-join: small for the sub-millisecond sweep (the statement then simply
+// runs to its end, 10-50 ms), large for the 1-20 ms deadlines (0.3-2 s if left alone).
 var heavyQueries = []string{
-	"WITH RECURSIVE c(x) AS (SELECT 1 UNION ALL SELECT x+1 FROM c WHERE x < 4000000) SELECT count(*) FROM c",
-	"WITH RECURSIVE c(x) AS (SELECT 1 UNION ALL SELECT x+1 FROM c LIMIT 3000000) SELECT sum(x) FROM c",
-	"SELECT count(*) FROM trace a, trace b, trace c, trace d",
-	"SELECT a.ID, b.ID, c.ID FROM trace a, trace b, trace c, trace d ORDER BY random() LIMIT 5",
-	"WITH RECURSIVE c(x) AS (SELECT 1 UNION ALL SELECT x+1 FROM c LIMIT 1000000) SELECT x, hex(zeroblob(100)) FROM c ORDER BY x DESC",
-	"WITH RECURSIVE c(x) AS (SELECT 1 UNION ALL SELECT x+1 FROM c LIMIT 2000000) INSERT INTO trace SELECT x,0,'e','e',1,0,0 FROM c RETURNING ID",
-	"WITH RECURSIVE c(x) AS (SELECT 1 UNION ALL SELECT x+1 FROM c LIMIT 2000000) UPDATE trace SET Kind = (SELECT max(x) FROM c)",
-	"SELECT hex(zeroblob(5000000)) FROM trace",
-	"SELECT max(length(hex(zeroblob(1000)))) FROM trace a, trace b, trace c, trace d",
+	"WITH RECURSIVE c(x) AS (SELECT 1 UNION ALL SELECT x+1 FROM c WHERE x < {N}) SELECT count(*) FROM c",
+	"WITH RECURSIVE c(x) AS (SELECT 1 UNION ALL SELECT x+1 FROM c LIMIT {N}) SELECT sum(x) FROM c",
+	"SELECT count(*) FROM {X}",
+	"SELECT a.ID, b.ID, c.ID FROM {X} ORDER BY random() LIMIT 5",
+	"WITH RECURSIVE c(x) AS (SELECT 1 UNION ALL SELECT x+1 FROM c LIMIT {N}) SELECT x, hex(zeroblob(100)) FROM c ORDER BY x DESC",
+	"WITH RECURSIVE c(x) AS (SELECT 1 UNION ALL SELECT x+1 FROM c LIMIT {N}) INSERT INTO trace SELECT x,0,'e','e',1,0,0 FROM c RETURNING ID",
+	"WITH RECURSIVE c(x) AS (SELECT 1 UNION ALL SELECT x+1 FROM c LIMIT {N}) UPDATE trace SET Kind = (SELECT max(x) FROM c)",
+	"SELECT hex(zeroblob({N})) FROM trace",
+	"SELECT max(length(hex(zeroblob(1000)))) FROM {X}",
+}
+
+func heavySQL(tmpl string, big bool) string {
+	n, x := "100000", "trace a, trace b, trace c"
+	if big {
+		n, x = "3000000", "trace a, trace b, trace c, trace d"
+	}
+	return strings.ReplaceAll(strings.ReplaceAll(tmpl, "{N}", n), "{X}", x)
 }
 
 var lightQueries = []string{
@@ -1021,7 +1083,7 @@ var lightQueries = []string{
 
 func TestC37Deadline(t *testing.T) {
 	s := kit.Begin(t, "C37", "deadline",
-		"1-3 statements per case on a fresh copy of the 40-row trace: heavy ones (runaway recursive CTEs, 5-7-way cross joins, 100 MB cells, smuggled writes fed by a runaway CTE) each with a caller deadline drawn from 0..500 us (sweep across connection checkout / PRAGMA / first step), 1 ms, 5 ms, 20 ms, interleaved with light ones; same oracle as sub-check sql, in particular the write probe and PRAGMA query_only=0 through the server's pool after every timeout. Non-trivial: at least one statement was cut by the deadline after it had passed the filter")
+		"1-3 statements per case on a fresh copy of the 40-row trace: heavy ones (recursive CTEs to 1e5/3e6, 3-4-way cross joins, multi-MB cells, smuggled writes fed by a long CTE) each with a caller deadline drawn from 0..500 us (sweep across connection checkout / PRAGMA / first step), 1 ms, 5 ms, 20 ms, interleaved with light ones; same oracle as sub-check sql, in particular the write probe and PRAGMA query_only=0 through the server's pool after every timeout. Non-trivial: at least one statement was cut by the deadline after it had passed the filter")
 	defer s.End()
 
 	var c c37Case
@@ -1034,7 +1096,7 @@ func TestC37Deadline(t *testing.T) {
 	} else if kit.ReplayMode() {
 		t.Skip()
 	}
-	kit.SetChecks(400, 3_000)
+	kit.SetChecks(250, 2_000)
 	rapid.Check(t, func(rt *rapid.T) {
 		c := c37Case{Template: 1}
 		n := rapid.IntRange(1, 3).Draw(rt, "n")
@@ -1046,12 +1108,14 @@ func TestC37Deadline(t *testing.T) {
 				q.Kind = "light"
 				q.DeadlineUS = -1
 			} else {
-				q.SQL = rapid.SampledFrom(heavyQueries).Draw(rt, "hq")
+				hq := rapid.SampledFrom(heavyQueries).Draw(rt, "hq")
 				q.Kind = "heavy"
 				if rapid.Bool().Draw(rt, "sweep") {
 					q.DeadlineUS = rapid.IntRange(0, 500).Draw(rt, "us")
+					q.SQL = heavySQL(hq, false)
 				} else {
 					q.DeadlineUS = rapid.SampledFrom([]int{1000, 5000, 20000}).Draw(rt, "us")
+					q.SQL = heavySQL(hq, true)
 				}
 			}
 			c.Queries = append(c.Queries, q)
